@@ -314,6 +314,7 @@ def run(tier):
     bindir, wrappers = prepare(chk)
     sites = T.scan()
     covered, uncovered, excluded, mismatch = T.coverage(sites, wrappers)
+    enum_required, enum_uncovered = T.enum_coverage(wrappers)
     mc = model_check(chk)
     combos = {"%s:%s" % (w["kind"], w["retry"]) for w in wrappers}
     plans = gen_plans(chk, tier, combos)
@@ -331,6 +332,12 @@ def run(tier):
         for w in wrappers:
             for p in by_combo[(w["kind"], w["retry"])]:
                 ints = [to_int(r) for r in p["raws"]]
+                if w.get("variant") and tag != "thorough":
+                    # argument-variant entries (enum values, flag constants, degenerate arguments): every
+                    # named errno, the basic successes and the boundary values; the full set in thorough
+                    x = ints[-1]
+                    if len(ints) > 1 or not (-133 <= x <= -1 or x in (0, 1, 16, 4096) or abs(x) > 65535 or x in (-4095, -4096, -4097)):
+                        continue
                 # a non-error answer for a wrapper that checks what the kernel wrote: run the real call
                 last_ok = not (-4095 <= ints[-1] <= -1)
                 mode = "p" if (w["pass"] and last_ok and len(ints) == 1) else "s"
@@ -447,6 +454,8 @@ def run(tier):
         "table_nr_mismatch": ["%s:%s" % (m["file"], m["fn"]) for m in mismatch],
         "other_syscalls_seen_in_windows": {k: sorted(v) for k, v in nr_drift.items()},
         "wrappers": len(wrappers), "plans": len(plans), "protocol_models": mc,
+        "driver_entries_for_argument_variants": sum(1 for w in wrappers if w.get("variant")),
+        "enum_variants_required": len(enum_required), "enum_variants_uncovered": enum_uncovered,
         # algorithm level: which model-checked idiom of SyscallIdioms.tla explains all records of a wrapper
         "wrapper_idioms": {w: sorted(v) for w, v in sorted(idioms.items())},
         "model_conformance": all(idioms.get(w["w"]) for w in wrappers),
